@@ -1,5 +1,6 @@
 import PystogVerif.Driver
 import PystogVerif.Model.Stog
+import PystogVerif.Model.Rebin
 /-! Driver entry points of the hand-written models (Float reading) -/
 
 def flag (x : Float) : Bool := x != 0.0
@@ -19,4 +20,7 @@ def Model.dispatch (name : String) (a : Array Arg) : Except String (List (List F
       let sq : Stog.Rows Float := ⟨← Arg.getVec a 4, ← Arg.getVec a 5, ← Arg.getVec a 6⟩
       let r := Stog.mergeData opts sq
       pure [r.1.x, r.1.y, r.1.dy, r.2.1, r.2.2.1, r.2.2.2]
+  | "Model.rebin" => do
+      let r := Rebin.rebin (← Arg.getVec a 0) (← Arg.getVec a 1) (← Arg.getScalar a 2) (← Arg.getScalar a 3) (← Arg.getScalar a 4)
+      pure [r.1, r.2]
   | _ => throw "unknown-entry"
